@@ -81,6 +81,10 @@ type VC struct {
 	objModCache []objMod
 	localRefs map[string][]localRef
 	rebinding bool
+	inlStack  []*inlFrame
+	inlSeq    int
+	inlPrefix string
+	inlMemo   map[*ssa.Function]bool
 	inTypeInv bool
 	globals  []string
 	deferInfo map[*ssa.Defer]*callInfo
@@ -102,7 +106,7 @@ type VC struct {
 	loopList []*loopInfo
 	backEdge map[[2]int]bool
 	callOrd  map[string]int
-	staticOrd map[ssa.Instruction]int
+	staticOrd map[ordKey]int
 	params   map[string]sval
 	closures []*closureRec
 	deferred []*deferRec
@@ -140,7 +144,7 @@ func NewVC(p *Program, c *Contracts, fn *ssa.Function, fc *FuncContract) *VC {
 		keyMetas: map[string]keyMeta{}, strLits: map[string]int{"": 0}, strList: []string{""},
 		typeIDs: map[string]int{}, counts: map[string]int{}, Abstract: map[string]int{},
 		loops: map[*ssa.BasicBlock]*loopInfo{}, backEdge: map[[2]int]bool{}, callOrd: map[string]int{},
-		params: map[string]sval{}, siteUsed: map[*Clause]int{}, tuples: map[ssa.Value][]string{}, funcIDs: map[string]int{}, usedContracts: map[string]bool{}, ensuresSeen: map[*Clause]int{}, localRefs: map[string][]localRef{}, deferInfo: map[*ssa.Defer]*callInfo{}}
+		params: map[string]sval{}, siteUsed: map[*Clause]int{}, tuples: map[ssa.Value][]string{}, funcIDs: map[string]int{}, usedContracts: map[string]bool{}, ensuresSeen: map[*Clause]int{}, localRefs: map[string][]localRef{}, inlMemo: map[*ssa.Function]bool{}, deferInfo: map[*ssa.Defer]*callInfo{}}
 	return vc
 }
 
@@ -457,11 +461,11 @@ func (vc *VC) constVal(c *ssa.Const) string {
 func (vc *VC) valName(v ssa.Value) string {
 	switch v := v.(type) {
 	case *ssa.Parameter:
-		return "p_" + v.Name()
+		return vc.inlPrefix + "p_" + v.Name()
 	case *ssa.FreeVar:
-		return "fv_" + v.Name()
+		return vc.inlPrefix + "fv_" + v.Name()
 	}
-	return "v_" + v.Name()
+	return vc.inlPrefix + "v_" + v.Name()
 }
 
 // val returns the SMT term of an SSA value.
